@@ -20,6 +20,7 @@ pub fn run(out: &Path, seed: u64, thorough: bool) -> Result<(), Box<dyn std::err
     let mut dist: BTreeMap<String, u64> = BTreeMap::new();
     let mut samples = Vec::new();
     let mut skipped_dup = 0u64;
+    let mut chains: Vec<String> = Vec::new();
     for i in 0..n {
         let mut p = GenParams::small();
         p.blocks = 6 + rng.below(8);
@@ -41,6 +42,8 @@ pub fn run(out: &Path, seed: u64, thorough: bool) -> Result<(), Box<dyn std::err
             for hsh in &hashes { if !seen.insert(hsh.clone()) { reused.insert(hsh.clone()); } }
             blocks.push((b, blk, hashes));
         }
+        let mut chain_terms: Vec<String> = Vec::new();
+        let mut chain_ok = reused.is_empty();
         for (b, blk, hashes) in blocks {
             if hashes.iter().any(|hsh| reused.contains(hsh)) { skipped_dup += 1; continue; } // reported by the search below
             let mut txs = Vec::new();
@@ -55,14 +58,20 @@ pub fn run(out: &Path, seed: u64, thorough: bool) -> Result<(), Box<dyn std::err
                 exp.push(format!("({}, {}, {})", hexn(&r["transactionIndex"]), hexn(&r["cumulativeGasUsed"]), cf::opt(&first, |x| cf::n(*x))));
                 *dist.entry(format!("logs_{}", logs.len().min(5))).or_default() += 1;
             }
-            if !ok { failures.push(json!({"what": format!("c06: block {} lists a transaction without a receipt", b), "case": {"history": h}})); continue; }
+            if !ok { failures.push(json!({"what": format!("c06: block {} lists a transaction without a receipt", b), "case": {"history": h}})); chain_ok = false; continue; }
             *dist.entry(format!("block_txs_{}", hashes.len().min(7))).or_default() += 1;
             let id = terms.len();
             terms.push(format!("{{| c6_id := {}; c6_number := {}; c6_hash := {}; c6_txs := [{}]; c6_exp := [{}]; c6_gas := {} |}}",
                 id, b, hterm(blk["hash"].as_str().unwrap_or("0x0")), txs.join("; "), exp.join("; "), hexn(&blk["gasUsed"])));
+            chain_terms.push(format!("({{| c6_id := {}; c6_number := {}; c6_hash := {}; c6_txs := [{}]; c6_exp := [{}]; c6_gas := {} |}}, {})",
+                id, b, hterm(blk["hash"].as_str().unwrap_or("0x0")), txs.join("; "), exp.join("; "), hexn(&blk["gasUsed"]), hterm(blk["parentHash"].as_str().unwrap_or("0x0"))));
             if samples.len() < 2 && hashes.len() >= 2 { samples.push(json!({"block": b, "txs(hash,gas,nlogs)": txs, "receipts(idx,cumulative,firstLog)": exp, "blockGasUsed": hexn(&blk["gasUsed"])})); }
         }
+        if chain_ok && chain_terms.len() as u64 == height + 1 {
+            chains.push(format!("{{| h6_id := {}; h6_blocks := [\n  {}\n] |}}", chains.len(), chain_terms.join(";\n  ")));
+        }
     }
+    // (chain-level cases are collected per history above)
     // implementation-level coherence search
     let exe = std::env::current_exe()?;
     let dir = out.join("search");
@@ -80,13 +89,14 @@ pub fn run(out: &Path, seed: u64, thorough: bool) -> Result<(), Box<dyn std::err
         }
     } else { failures.push(json!({"what": "simcheck search produced no result file", "case": {}})); }
     let imports = "From Brc.Model Require Import Base Chain Tie06.";
-    let files = cf::write_shards(out, "c06_b", imports, "case06", "bad_cases06", &terms, 16)?;
+    let mut files = cf::write_shards(out, "c06_b", imports, "case06", "bad_cases06", &terms, 16)?;
+    files.extend(cf::write_shards(out, "c06_h", "From Brc.Model Require Import Base Chain ChainRun Tie06.", "chain06", "bad_chains06", &chains, 8)?);
     let meta = json!({
         "files": files,
         "evaluations": terms.len() as u64 + search_eval,
         "distinct_nontrivial": terms.len(),
         "rule": "every finalised block of generated histories (all op kinds, multi-transaction and empty blocks, failed / reverted transactions, contract-created contracts, pool drains, reorgs and regrowth) run on the real engine: per block the transactions in block order with gas used and number of logs as revm reported them, against the receipts' index / cumulative gas / first log index and the block's gas used; the bookkeeping model must reproduce them. Blocks in which a transaction hash occurs twice are left to the search (known finding F14). In addition simcheck c06 recomputes every clause of the property on the implementation with its own merkle / bloom / sum code at every block boundary.",
-        "blocks_checked": terms.len(), "blocks_skipped_duplicate_hash": skipped_dup, "distribution": dist, "search_evaluations": search_eval,
+        "blocks_checked": terms.len(), "whole_chains_checked": chains.len(), "blocks_skipped_duplicate_hash": skipped_dup, "distribution": dist, "search_evaluations": search_eval,
         "samples": samples, "impl_failures": failures,
     });
     std::fs::write(out.join("c06_meta.json"), serde_json::to_string_pretty(&meta)?)?;
